@@ -36,6 +36,10 @@ enum Fault {
     UnknownOpcode,
     /// a well-formed RESULT on a non-negative stream id nobody waits on
     UnsolicitedStream,
+    /// one more request is given up by its caller while in flight (client-side timeout), the node answers it
+    /// LATE (which is legal and must be ignored), a further request is served on the connection, and then the
+    /// node sends one more frame on the abandoned request's stream id - by now a stream nobody is waiting on
+    UnsolicitedAfterLateAnswer,
     /// header announcing 2 GiB, then silence
     HugeLengthThenStall,
     /// node stops reading and writing; keep-alives are on
@@ -220,6 +224,7 @@ async fn run_case(c: &Case) -> CaseOut {
         settle(&log, Duration::from_millis(80), Duration::from_secs(20), move || e2.held_count() >= k && h2.misc.lock().unwrap().len() >= want_misc).await;
     }
     let held = echo.take_held();
+    let mut extra_ops: Vec<(u64, Option<EchoOutcome>)> = Vec::new();
     let pool_conn = held.first().map(|(_, rq)| rq.conn.clone());
     if let Some(conn) = &pool_conn {
         let answer = |n: usize| {
@@ -267,6 +272,42 @@ async fn run_case(c: &Case) -> CaseOut {
             Fault::UnsolicitedStream => {
                 answer(c.m);
                 conn.send_raw(raw_frame(0x84, 31000, 0x08));
+            }
+            Fault::UnsolicitedAfterLateAnswer => {
+                // request A: abandoned after 60 ms (the k held requests keep the lower stream ids busy)
+                let id_a = next_op();
+                call(&log, id_a, "echo-abandoned", "");
+                let _ = tokio::time::timeout(Duration::from_millis(60), echo_op(session.clone(), prepared.clone(), id_a, c.idempotent)).await;
+                ret(&log, id_a, false, "given up by the caller");
+                let e3 = echo.clone();
+                settle(&log, Duration::from_millis(40), Duration::from_secs(10), move || e3.held_count() >= 1).await;
+                let late = echo.take_held();
+                if let Some((_, rq_a)) = late.iter().find(|(id, _)| *id == id_a) {
+                    let stream_a = rq_a.stream;
+                    // the late answer
+                    Echo::answer(id_a, rq_a);
+                    tokio::time::sleep(Duration::from_millis(40)).await;
+                    // request B is served normally (it may well get A's stream id)
+                    echo.set_mode(EchoMode::Immediate);
+                    let id_b = next_op();
+                    call(&log, id_b, "echo", "after-late-answer");
+                    match tokio::time::timeout(Duration::from_secs(6), echo_op(session.clone(), prepared.clone(), id_b, c.idempotent)).await {
+                        Ok(out) => {
+                            ret(&log, id_b, matches!(out, EchoOutcome::Ok(_)), format!("{out:?}"));
+                            extra_ops.push((id_b, Some(out)));
+                        }
+                        Err(_) => extra_ops.push((id_b, None)),
+                    }
+                    echo.set_mode(EchoMode::Hold);
+                    answer(c.m);
+                    // ... and now a frame on a stream nobody is waiting on
+                    conn.send_raw(raw_frame(0x84, stream_a, 0x08));
+                    log.push(Ev::Note(format!("unsolicited-frame-on-formerly-orphaned-stream {stream_a}")));
+                } else {
+                    log.push(Ev::Note("abandoned request never reached the node".into()));
+                    answer(c.m);
+                    conn.send_raw(raw_frame(0x84, 31000, 0x08));
+                }
             }
             Fault::HugeLengthThenStall => {
                 answer(c.m);
@@ -335,6 +376,7 @@ async fn run_case(c: &Case) -> CaseOut {
             Err(_) => ops.push((ids[i], None)),
         }
     }
+    ops.extend(extra_ops);
     let mut misc_hung: Vec<&'static str> = Vec::new();
     for (name, h) in misc_handles {
         let left = deadline.saturating_duration_since(std::time::Instant::now()).max(Duration::from_millis(500));
@@ -590,6 +632,7 @@ fn cases(ctx: &Ctx, rng: &mut Rng) -> Vec<Case> {
             Fault::BadVersion,
             Fault::UnknownOpcode,
             Fault::UnsolicitedStream,
+            Fault::UnsolicitedAfterLateAnswer,
             Fault::NegativeStreamBenign,
             Fault::RstDuringWrites,
             Fault::IdleFin,
@@ -1067,6 +1110,7 @@ pub fn run(ctx: &Ctx) -> Outcome {
             "BadVersion" => Fault::BadVersion,
             "UnknownOpcode" => Fault::UnknownOpcode,
             "UnsolicitedStream" => Fault::UnsolicitedStream,
+            "UnsolicitedAfterLateAnswer" => Fault::UnsolicitedAfterLateAnswer,
             "HugeLengthThenStall" => Fault::HugeLengthThenStall,
             "SilentStall" => Fault::SilentStall,
             "NegativeStreamBenign" => Fault::NegativeStreamBenign,
@@ -1211,6 +1255,7 @@ pub fn run(ctx: &Ctx) -> Outcome {
         "fault:BadVersion",
         "fault:UnknownOpcode",
         "fault:UnsolicitedStream",
+        "fault:UnsolicitedAfterLateAnswer",
         "fault:HugeLengthThenStall",
         "fault:SilentStall",
         "fault:NegativeStreamBenign",
